@@ -1669,6 +1669,22 @@ class MeshRegion:
 
         # Get distances from contours
         while True:
+            if region is not self:
+                # The distance along a contour is measured from the start of its
+                # FineContour, which may extend beyond the first point of the contour
+                # (e.g. for non-orthogonal grids), so measure from the first point of
+                # the contour, which is the point shared with the previous region.
+                # (For the first region this offset was subtracted above.)
+                for i in range(self.nx):
+                    c = region.contours[2 * i + 1]
+                    d0 = c.get_distance(psi=self.meshParent.equilibrium.psi)[c.startInd]
+                    region.poloidal_distance.centre[i, :] -= d0
+                    region.poloidal_distance.ylow[i, :] -= d0
+                for i in range(self.nx + 1):
+                    c = region.contours[2 * i]
+                    d0 = c.get_distance(psi=self.meshParent.equilibrium.psi)[c.startInd]
+                    region.poloidal_distance.xlow[i, :] -= d0
+                    region.poloidal_distance.corners[i, :] -= d0
             for i in range(self.nx):
                 c = region.contours[2 * i + 1]
                 # Cell-centre points
